@@ -166,6 +166,15 @@ fn main() {
                 println!("VIOLATION property={} replay={}", prop, p.display());
                 exit = 1;
             }
+            if vharness::engine::collecting() {
+                let g = vharness::engine::COLLECTED.lock().unwrap();
+                for ((rule, sig), (n, detail)) in g.iter() {
+                    let d: String = detail.chars().take(400).collect();
+                    println!("COLLECT {rule} | {sig} | n={n}\n    {}", d.replace('\n', "\n    "));
+                }
+                println!("COLLECT distinct failing classes: {}", g.len());
+                exit = 3;
+            }
             let wall = t0.elapsed().as_secs_f64();
             if let Err(e) = evidence::write(&ctx, prop, check.level, &rep, wall) {
                 eprintln!("cannot write evidence: {e}");
